@@ -160,6 +160,44 @@ impl Fs {
     }
 }
 
+/// Incremental materialiser: keeps track of what is on disk under `root` and rewrites only the
+/// files that differ from the requested image.
+pub struct Disk {
+    pub root: String,
+    current: Fs,
+}
+impl Disk {
+    pub fn new(root: &str) -> Disk {
+        let _ = std::fs::remove_dir_all(root);
+        std::fs::create_dir_all(root).unwrap();
+        Disk { root: root.to_string(), current: Fs::default() }
+    }
+    /// Make the directory contain exactly `fs`. Must be called again after anything wrote to the
+    /// directory (pass `dirty = true` to re-read what is there).
+    pub fn set(&mut self, fs: &Fs, dirty: bool) {
+        if dirty {
+            self.current = Fs::from_dir(&self.root);
+        }
+        let stale: Vec<String> = self.current.files.keys().filter(|p| !fs.files.contains_key(*p)).cloned().collect();
+        for p in stale {
+            let _ = std::fs::remove_file(&p);
+            self.current.files.remove(&p);
+        }
+        for (p, f) in &fs.files {
+            if !p.starts_with(&self.root) {
+                continue;
+            }
+            if self.current.files.get(p).map(|c| &c.data) != Some(&f.data) {
+                if let Some(parent) = std::path::Path::new(p).parent() {
+                    let _ = std::fs::create_dir_all(parent);
+                }
+                std::fs::write(p, &f.data).unwrap();
+                self.current.files.insert(p.clone(), FileSt { data: f.data.clone(), synced: f.data.len() });
+            }
+        }
+    }
+}
+
 /// One crash image: the file system, how many log ops are completely applied, and a label.
 #[derive(Clone, Debug)]
 pub struct Image {
@@ -169,6 +207,9 @@ pub struct Image {
     pub label: String,
     /// image needed recovery to drop a torn or unsynced tail
     pub torn: bool,
+    /// clean op boundary, or a torn image cut at the first / middle / last byte (structured subset
+    /// used to choose continuation points of later epochs)
+    pub landmark: bool,
 }
 
 pub struct EnumCfg {
@@ -176,6 +217,22 @@ pub struct EnumCfg {
     pub power_loss: bool,
     /// enumerate every byte cut of a torn write (true) or only first/middle/last byte cuts (false)
     pub every_byte: bool,
+    /// with `every_byte`: writes/tails longer than this get every byte of their first and last 24
+    /// bytes plus every 61st byte in between (stated in the evidence; 0 = no limit)
+    pub dense_limit: usize,
+}
+
+fn cuts_for(cfg: &EnumCfg, lo: usize, hi: usize) -> Vec<usize> {
+    if !cfg.every_byte {
+        return pick_cuts(lo, hi);
+    }
+    if cfg.dense_limit == 0 || hi - lo <= cfg.dense_limit {
+        return (lo..hi).collect();
+    }
+    let mut v: Vec<usize> = (lo..lo + 24).chain((lo + 24..hi - 24).step_by(61)).chain(hi - 24..hi).collect();
+    v.sort_unstable();
+    v.dedup();
+    v
 }
 
 /// Enumerate crash images of `ops` applied on top of `base`, calling `f` for each.
@@ -193,7 +250,7 @@ pub fn enumerate(base: &Fs, ops: &[Op], cfg: &EnumCfg, mut f: impl FnMut(&Image)
         // state with i ops applied
         let is_mark_boundary = i > 0 && matches!(ops[i - 1], Op::Mark { .. });
         if last_emitted.as_ref() != Some(&fs) || is_mark_boundary {
-            emit(Image { fs: fs.clone(), ops_applied: i, label: format!("after-op-{i}"), torn: false }, &mut f);
+            emit(Image { fs: fs.clone(), ops_applied: i, label: format!("after-op-{i}"), torn: false, landmark: true }, &mut f);
             last_emitted = Some(fs.clone());
             if cfg.power_loss {
                 // every file's unsynced appended tail cut at every length; one file at a time
@@ -206,11 +263,12 @@ pub fn enumerate(base: &Fs, ops: &[Op], cfg: &EnumCfg, mut f: impl FnMut(&Image)
                     if synced >= len {
                         continue;
                     }
-                    let cuts: Vec<usize> = if cfg.every_byte { (synced..len).collect() } else { pick_cuts(synced, len) };
+                    let cuts = cuts_for(cfg, synced, len);
+                    let marks = pick_cuts(synced, len);
                     for cut in cuts {
                         let mut g = fs.clone();
                         g.files.get_mut(p).unwrap().data.truncate(cut);
-                        emit(Image { fs: g, ops_applied: i, label: format!("after-op-{i}-powerloss-{}@{cut}", short(p)), torn: true }, &mut f);
+                        emit(Image { fs: g, ops_applied: i, label: format!("after-op-{i}-powerloss-{}@{cut}", short(p)), torn: true, landmark: marks.contains(&cut) }, &mut f);
                     }
                 }
                 // all files at their synced length simultaneously
@@ -220,7 +278,7 @@ pub fn enumerate(base: &Fs, ops: &[Op], cfg: &EnumCfg, mut f: impl FnMut(&Image)
                         let n = s.synced;
                         s.data.truncate(n);
                     }
-                    emit(Image { fs: g, ops_applied: i, label: format!("after-op-{i}-powerloss-all-synced"), torn: true }, &mut f);
+                    emit(Image { fs: g, ops_applied: i, label: format!("after-op-{i}-powerloss-all-synced"), torn: true, landmark: true }, &mut f);
                 }
             }
         }
@@ -229,11 +287,12 @@ pub fn enumerate(base: &Fs, ops: &[Op], cfg: &EnumCfg, mut f: impl FnMut(&Image)
         }
         if let Op::Write { path, off, data } = &ops[i] {
             if data.len() > 1 {
-                let cuts: Vec<usize> = if cfg.every_byte { (1..data.len()).collect() } else { pick_cuts(1, data.len()) };
+                let cuts = cuts_for(cfg, 1, data.len());
+                let marks = pick_cuts(1, data.len());
                 for cut in cuts {
                     let mut g = fs.clone();
                     g.apply_write(path, *off, &data[..cut]);
-                    emit(Image { fs: g, ops_applied: i, label: format!("torn-op-{i}-{}@{cut}/{}", short(path), data.len()), torn: true }, &mut f);
+                    emit(Image { fs: g, ops_applied: i, label: format!("torn-op-{i}-{}@{cut}/{}", short(path), data.len()), torn: true, landmark: marks.contains(&cut) }, &mut f);
                 }
             }
         }
